@@ -19,11 +19,16 @@ static uint64_t xs128p(void)
     return ent_state[1] + s0;
 }
 
+int env_entropy_fail;   /* set: the platform's entropy source fails from now on */
 int32 __wrap_psGetEntropy(unsigned char *bytes, uint32 size, void *userPtr)
 {
     uint32 i;
     uint64_t v = 0;
     (void) userPtr;
+    if (env_entropy_fail)
+    {
+        return PS_PLATFORM_FAIL;
+    }
     for (i = 0; i < size; i++)
     {
         if ((i & 7) == 0)
